@@ -108,7 +108,9 @@ def seeds(tier):
     extra = [(f'mini{k}', m) for k, m in enumerate(MINI)]
     if tier == 'quick':
         return extra + small[:5] + rest[:1]
-    return extra + sd
+    # thorough: every seed except the three largest generated batch programs (the cost of the edit family grows with the square
+    # of the seed length, and those batches repeat one function shape twenty times)
+    return extra + [(n, s) for n, s in sd if len(token_texts(s)) <= 1300]
 
 
 def items(tier):
